@@ -205,10 +205,18 @@ pub fn check_tight(tape: &[u16], rc: &mut RCase) -> Result<(), Failure> {
             rc.label("tight:history_entry_with_omitted_optional_output");
         }
         outs.push(rgen::ROut { name: None, party: 0, terms: vec![], change: true, optional: false });
+        // one time in two the earlier template sizes the same output position itself: whatever an instance derives
+        // per output position while resolving it is then filled in by the history, not only by the target
+        let mut min = vec![Term::AdaLit(2_000_000), Term::Fees];
+        let wanted = format!("{}{}", names[j.min(3)], j);
+        if let (true, Some(idx)) = (t.flag(), outs.iter().position(|o| o.name.as_deref() == Some(wanted.as_str()))) {
+            min.insert(1, Term::MinUtxo(idx));
+            rc.label("tight:history_entry_sizes_the_same_output_position");
+        }
         history.push(Scenario {
             tx_name: "earlier".into(),
             params: vec![("quantity".into(), 1)],
-            ins: vec![rgen::RIn { name: "source".into(), party: 0, many: false, min: vec![Term::AdaLit(2_000_000), Term::Fees], ref_id: None }],
+            ins: vec![rgen::RIn { name: "source".into(), party: 0, many: false, min, ref_id: None }],
             outs,
             collateral: None,
             references: vec![],
